@@ -149,7 +149,10 @@ Definition convert2es6 (py : ustring) : jres ustring :=
   end.
 
 (* ========================================================================== *)
-(* Canonicalize.py : encode_basestring (ESCAPE / ESCAPE_DCT)                  *)
+(* Canonicalize.py : encode_basestring (ESCAPE / ESCAPE_DCT).  At run time the
+   name is bound to the C accelerator _json.encode_basestring when it is available
+   (same function; py_encode_basestring is the fallback the model transcribes), so
+   an edit of ESCAPE_DCT alone changes nothing observable.                      *)
 
 Definition hex_lower (n : N) : N := if n <? 10 then 48 + n else 87 + n.
 
